@@ -84,7 +84,10 @@ func Reevaluate(doc *CReplay) (class, detail string) {
 	} else {
 		b.run(time.Minute, b.Dir, "cp", "-r", "opt", "unopt")
 	}
-	b.copySkipped()
+	if missing := b.copySkipped(); len(missing) > 0 {
+		base := filepath.Base(missing[0])
+		return "acceptance-gate build-" + strings.SplitN(missing[0], "/", 2)[0] + ": no generated file was written for " + base + " (it uses the API)", strings.Join(missing, " ")
+	}
 	out, err := b.run(10*time.Minute, b.Dir, "go", "build", "-gcflags=-e", "-o", "run", ".")
 	if err != nil {
 		m := errLine.FindStringSubmatch(out)
